@@ -208,6 +208,15 @@ fn dump_tables(db: &Database, tables: &[String]) -> String {
                         (cells[0].parse::<i64>().unwrap_or(i64::MIN), format!("{}={}", cells[0], cells[1]))
                     })
                     .collect();
+                // side table of the committed-ALTER family: the added column shows as the marker row (-1, 1)
+                // (not for `a9`, whose ALTER is never committed: that an open ALTER is visible to others is a listed finding of C15)
+                if t.starts_with("a8") {
+                    if let Ok(QueryResult::Rows(all)) = db.execute(&format!("SELECT * FROM {}", t)) {
+                        if all.num_columns() >= 3 {
+                            rs.push((-1, "-1=1".to_string()));
+                        }
+                    }
+                }
                 rs.sort();
                 if t.starts_with('x') {
                     if let Some(bad) = index_disagrees(db, t, &rs) {
@@ -471,6 +480,9 @@ fn observe_image(img: &Image, tables: &[String], cfg: DBConfig, nested: bool, au
                     // … also for the tables it already holds: a new row must be accepted, found again, and be one more row
                     if ok {
                         for t in tables {
+                            if t.starts_with('a') {
+                                continue; // the side tables of the ALTER families may have a third column
+                            }
                             let before = match db2.execute(&format!("SELECT id, v FROM {}", t)) {
                                 Ok(QueryResult::Rows(r)) => r.len(),
                                 _ => continue, // table absent in this image
@@ -980,6 +992,7 @@ fn gen_workload(rng: &mut Rng, _head: &str, idx: usize) -> (Vec<Op>, Vec<String>
     let mut val_of: BTreeMap<(String, i64), i64> = BTreeMap::new();
     let mut freed_v: Vec<i64> = Vec::new();
     let mut created_in_session: Vec<String> = Vec::new();
+    let mut altered = false;
     for step in 0..steps {
         let t = rng.pick(&tables).clone();
         // the family's special feature, once, somewhere in the middle
@@ -1137,6 +1150,24 @@ fn gen_workload(rng: &mut Rng, _head: &str, idx: usize) -> (Vec<Op>, Vec<String>
                 }
                 ops.push(Op::SCommit(sess));
                 tags.push("session_commit".into());
+                if family == "mixed_txn" && !altered && rng.chance(1, 3) {
+                    // a committed ALTER TABLE on an empty side table (redo of ALTER), autocommit or in a session
+                    altered = true;
+                    let side = "a8".to_string();
+                    ops.push(Op::Auto(Dml::Crt(side.clone())));
+                    if rng.chance(1, 2) {
+                        ops.push(Op::Flush);
+                    }
+                    if rng.chance(1, 2) {
+                        ops.push(Op::Auto(Dml::Alt(side.clone())));
+                    } else {
+                        sess += 1;
+                        ops.push(Op::SBegin(sess));
+                        ops.push(Op::SDml(sess, Dml::Alt(side.clone())));
+                        ops.push(Op::SCommit(sess));
+                    }
+                    tags.push("committed_alter".into());
+                }
                 if family == "mixed_txn" && rng.chance(1, 3) {
                     // DDL inside a transaction
                     let extra = format!("t{}", 4 + rng.below(3));
